@@ -134,6 +134,8 @@ def cli(argv=sys.argv, mode='output'):
         return G.to_dimacs()
     else:
         G.to_file(args.output, fileformat='dimacs')
+        # a full disk must show up here, not at interpreter shutdown
+        args.output.flush()
 
 
 # Launcher
